@@ -1,0 +1,73 @@
+//go:build verif
+
+package codec
+
+// Contracts for property C37, passivation strategy: each kind of strategy is sent
+// as its own wire variant carrying exactly the value its accessor returns, an
+// unknown kind as nil; decoding builds the strategy of the variant's kind from
+// exactly the value the wire message carries.
+
+//@ property C37
+
+//@ ghost local ps_timeout time.Duration
+//@ ghost local ps_have_timeout bool
+//@ ghost local ps_pb *durationpb.Duration
+//@ ghost local ps_max int
+
+//@ func EncodePassivationStrategy(strategy)
+//@   ghost entry ps_have_timeout = false
+//@   at call 1 of (*TimeBasedStrategy).Timeout assert asks-the-strategy-being-encoded: arg0 == strategy.(*passivation.TimeBasedStrategy)
+//@   at call 1 of (*TimeBasedStrategy).Timeout ghost ps_timeout = result
+//@   at call 1 of (*TimeBasedStrategy).Timeout ghost ps_have_timeout = true
+//@   at call 1 of New assert sends-the-configured-timeout: ps_have_timeout && arg0 == ps_timeout
+//@   at call 1 of New ghost ps_pb = result
+//@   at call 1 of (*MessagesCountBasedStrategy).MaxMessages assert asks-the-strategy-being-encoded: arg0 == strategy.(*passivation.MessagesCountBasedStrategy)
+//@   at call 1 of (*MessagesCountBasedStrategy).MaxMessages ghost ps_max = result
+//@   ensures time-based-goes-as-time-based: is(strategy, *passivation.TimeBasedStrategy) ==> result != nil && is(result.Strategy, *internalpb.PassivationStrategy_TimeBased) && result.Strategy.(*internalpb.PassivationStrategy_TimeBased).TimeBased != nil && result.Strategy.(*internalpb.PassivationStrategy_TimeBased).TimeBased.PassivateAfter == ps_pb
+//@   ensures count-based-goes-as-count-based: is(strategy, *passivation.MessagesCountBasedStrategy) ==> result != nil && is(result.Strategy, *internalpb.PassivationStrategy_MessagesCountBased) && result.Strategy.(*internalpb.PassivationStrategy_MessagesCountBased).MessagesCountBased != nil && result.Strategy.(*internalpb.PassivationStrategy_MessagesCountBased).MessagesCountBased.MaxMessages == int64(ps_max)
+//@   ensures long-lived-goes-as-long-lived: is(strategy, *passivation.LongLivedStrategy) ==> result != nil && is(result.Strategy, *internalpb.PassivationStrategy_LongLived)
+//@   ensures unknown-kind-is-nil: !is(strategy, *passivation.TimeBasedStrategy) && !is(strategy, *passivation.MessagesCountBasedStrategy) && !is(strategy, *passivation.LongLivedStrategy) ==> result == nil
+
+//@ ghost local dp_pb *durationpb.Duration
+//@ ghost local dp_d time.Duration
+//@ ghost local dp_n int64
+//@ ghost local dp_t *passivation.TimeBasedStrategy
+//@ ghost local dp_c *passivation.MessagesCountBasedStrategy
+
+//@ func DecodePassivationStrategy(proto)
+//@   at call 1 of (*TimeBasedPassivation).GetPassivateAfter assert reads-the-received-variant: arg0 == proto.Strategy.(*internalpb.PassivationStrategy_TimeBased).TimeBased
+//@   at call 1 of (*TimeBasedPassivation).GetPassivateAfter ghost dp_pb = result
+//@   at call 1 of (*Duration).AsDuration assert converts-the-received-timeout: arg0 == dp_pb
+//@   at call 1 of (*Duration).AsDuration ghost dp_d = result
+//@   at call 1 of NewTimeBasedStrategy assert builds-with-the-received-timeout: arg0 == dp_d
+//@   at call 1 of NewTimeBasedStrategy ghost dp_t = result
+//@   at call 1 of (*MessagesCountBasedPassivation).GetMaxMessages assert reads-the-received-variant: arg0 == proto.Strategy.(*internalpb.PassivationStrategy_MessagesCountBased).MessagesCountBased
+//@   at call 1 of (*MessagesCountBasedPassivation).GetMaxMessages ghost dp_n = result
+//@   at call 1 of NewMessageCountBasedStrategy assert builds-with-the-received-count: arg0 == int(dp_n)
+//@   at call 1 of NewMessageCountBasedStrategy ghost dp_c = result
+//@   ensures nil-stays-nil: proto == nil ==> result == nil
+//@   ensures time-based-comes-back-time-based: proto != nil && is(proto.Strategy, *internalpb.PassivationStrategy_TimeBased) ==> is(result, *passivation.TimeBasedStrategy) && result.(*passivation.TimeBasedStrategy) == dp_t
+//@   ensures count-based-comes-back-count-based: proto != nil && is(proto.Strategy, *internalpb.PassivationStrategy_MessagesCountBased) ==> is(result, *passivation.MessagesCountBasedStrategy) && result.(*passivation.MessagesCountBasedStrategy) == dp_c
+//@   ensures long-lived-comes-back-long-lived: proto != nil && is(proto.Strategy, *internalpb.PassivationStrategy_LongLived) ==> is(result, *passivation.LongLivedStrategy)
+//@   ensures unknown-variant-is-nil: proto != nil && !is(proto.Strategy, *internalpb.PassivationStrategy_TimeBased) && !is(proto.Strategy, *internalpb.PassivationStrategy_MessagesCountBased) && !is(proto.Strategy, *internalpb.PassivationStrategy_LongLived) ==> result == nil
+
+// reentrancy, receiving side: the configuration is rebuilt from exactly the mode
+// and the in-flight limit the wire message carries
+//@ ghost local dr_mode internalpb.ReentrancyMode
+//@ ghost local dr_max uint32
+//@ ghost local dr_mode_set bool
+//@ ghost local dr_max_set bool
+
+//@ func DecodeReentrancy(config)
+//@   ghost entry dr_mode_set = false
+//@   ghost entry dr_max_set = false
+//@   at call 1 of (*ReentrancyConfig).GetMode assert arg0 == config
+//@   at call 1 of (*ReentrancyConfig).GetMode ghost dr_mode = result
+//@   at call 1 of (*ReentrancyConfig).GetMaxInFlight assert arg0 == config
+//@   at call 1 of (*ReentrancyConfig).GetMaxInFlight ghost dr_max = result
+//@   at call 1 of WithMode assert rebuilds-with-the-received-mode: arg0 == fromInternalReentrancyMode(dr_mode)
+//@   at call 1 of WithMode ghost dr_mode_set = true
+//@   at call 1 of WithMaxInFlight assert rebuilds-with-the-received-limit: arg0 == int(dr_max)
+//@   at call 1 of WithMaxInFlight ghost dr_max_set = true
+//@   at call 1 of New assert applies-both-options: dr_mode_set && dr_max_set && len(arg0) == 2
+//@   ensures nil-stays-nil: config == nil ==> result == nil
